@@ -1,6 +1,7 @@
 package main
 
 import (
+	"context"
 	"encoding/json"
 	"math"
 	"sort"
@@ -115,10 +116,16 @@ type vendOp struct {
 	Unit2 string   `json:"unit2"`
 	Stock absStock `json:"stock"`
 }
+type vendOpt struct {
+	Kind   string     `json:"kind"` // stock | cons | clock
+	Stocks []absStock `json:"stocks"`
+	Cons   []string   `json:"cons"`
+	Via    string     `json:"via"` // "initial": WithInitialStock / WithInitialConsumable; "option": With{Inventory,Consumables}Option(records)
+}
 type vendWalk struct {
 	N   int `json:"n"`
 	Cfg struct {
-		Via    string     `json:"via"`
+		Opts   []vendOpt  `json:"opts"`
 		Stocks []absStock `json:"stocks"`
 		Cons   []string   `json:"cons"`
 	} `json:"cfg"`
@@ -142,6 +149,8 @@ type vendObs struct {
 	Back   int64     `json:"back"`
 	Finite bool      `json:"finite"` // Convert: both results are finite numbers
 	Units  []string  `json:"units"`  // New: the names of every value of the unit enum
+	Opts   []vendOpt `json:"opts"`   // New: the option sequence
+	Seed   vendState `json:"seed"`   // New: what the PullInventory / PullConsumables seeds hold
 	Panic  string    `json:"panic"`
 	RPanic string    `json:"rpanic"`
 }
@@ -151,10 +160,18 @@ func init() { register("vending", runVending) }
 func runVending(raw json.RawMessage, out *hx.Out) {
 	w := decode[vendWalk](raw)
 	blank := absStock{Used: noQ, Remaining: noQ}
-	o := vendObs{Model: "vending", Walk: w.N, Op: "New", Via: w.Cfg.Via, Q: plainQ{Unit: "NO_UNIT"}, Unit2: "NO_UNIT",
+	o := vendObs{Model: "vending", Walk: w.N, Op: "New", Via: "", Q: plainQ{Unit: "NO_UNIT"}, Unit2: "NO_UNIT",
 		Stock: blank, Ret: optStockOf(nil), Err: "OK", Finite: true,
 		Pre:  vendState{Inv: w.Cfg.Stocks, Cons: w.Cfg.Cons},
-		Post: vendState{Inv: []absStock{}, Cons: []string{}}}
+		Post: vendState{Inv: []absStock{}, Cons: []string{}}, Seed: vendState{Inv: []absStock{}, Cons: []string{}}, Opts: w.Cfg.Opts}
+	for i := range o.Opts {
+		if o.Opts[i].Stocks == nil {
+			o.Opts[i].Stocks = []absStock{}
+		}
+		if o.Opts[i].Cons == nil {
+			o.Opts[i].Cons = []string{}
+		}
+	}
 	if o.Pre.Inv == nil {
 		o.Pre.Inv = []absStock{}
 	}
@@ -168,33 +185,64 @@ func runVending(raw json.RawMessage, out *hx.Out) {
 	var m *vendingpb.Model
 	o.Panic = hx.Catch(func() {
 		var opts []resource.Option
-		if w.Cfg.Via == "initial" {
-			for _, s := range w.Cfg.Stocks {
-				opts = append(opts, vendingpb.WithInitialStock(concStock(s)))
-			}
-			for _, c := range w.Cfg.Cons {
-				opts = append(opts, vendingpb.WithInitialConsumable(&traits.Consumable{Name: c}))
-			}
-		} else {
-			for _, s := range w.Cfg.Stocks {
-				opts = append(opts, vendingpb.WithInventoryOption(resource.WithInitialRecord(s.Name, concStock(s))))
-			}
-			for _, c := range w.Cfg.Cons {
-				opts = append(opts, vendingpb.WithConsumablesOption(resource.WithInitialRecord(c, &traits.Consumable{Name: c})))
+		for _, co := range w.Cfg.Opts {
+			switch co.Kind {
+			case "stock":
+				for _, s := range co.Stocks {
+					if co.Via == "option" {
+						opts = append(opts, vendingpb.WithInventoryOption(resource.WithInitialRecord(s.Name, concStock(s))))
+					}
+				}
+				if co.Via != "option" {
+					var ss []*traits.Consumable_Stock
+					for _, s := range co.Stocks {
+						ss = append(ss, concStock(s))
+					}
+					opts = append(opts, vendingpb.WithInitialStock(ss...))
+				}
+			case "cons":
+				var cs []*traits.Consumable
+				for _, c := range co.Cons {
+					cs = append(cs, &traits.Consumable{Name: c})
+				}
+				if co.Via == "option" {
+					for _, c := range cs {
+						opts = append(opts, vendingpb.WithConsumablesOption(resource.WithInitialRecord(c.Name, c)))
+					}
+				} else {
+					opts = append(opts, vendingpb.WithInitialConsumable(cs...))
+				}
+			case "clock":
+				opts = append(opts, resource.WithClock(scriptedClock()))
+			default:
+				hx.Fatal("vending: unknown option kind %q", co.Kind)
 			}
 		}
 		m = vendingpb.NewModel(opts...)
 	})
 	if m != nil {
 		o.Post, o.RPanic = vendRead(m)
+		if o.RPanic == "" {
+			inv, _ := pullSeed(func(ctx context.Context) <-chan vendingpb.InventoryChange { return m.PullInventory(ctx) }, len(o.Post.Inv))
+			for _, ch := range inv {
+				o.Seed.Inv = append(o.Seed.Inv, absStockOf(ch.NewValue))
+			}
+			sort.Slice(o.Seed.Inv, func(i, j int) bool { return o.Seed.Inv[i].Name < o.Seed.Inv[j].Name })
+			cons, _ := pullSeed(func(ctx context.Context) <-chan vendingpb.ConsumablesChange { return m.PullConsumables(ctx) }, len(o.Post.Cons))
+			for _, ch := range cons {
+				o.Seed.Cons = append(o.Seed.Cons, ch.NewValue.GetName())
+			}
+			sort.Strings(o.Seed.Cons)
+		}
 	}
 	out.Write(o)
 	if m == nil || o.RPanic != "" {
 		return // nothing (readable) to walk on
 	}
 	for i, op := range w.Ops {
-		o := vendObs{Model: "vending", Walk: w.N, Step: i + 1, Op: op.Op, Via: w.Cfg.Via, Name: op.Name, Q: op.Q,
-			Unit2: op.Unit2, Stock: op.Stock, Ret: optStockOf(nil), Err: "OK", Finite: true, Units: []string{}}
+		o := vendObs{Model: "vending", Walk: w.N, Step: i + 1, Op: op.Op, Name: op.Name, Q: op.Q,
+			Unit2: op.Unit2, Stock: op.Stock, Ret: optStockOf(nil), Err: "OK", Finite: true, Units: []string{}, Opts: []vendOpt{},
+			Seed: vendState{Inv: []absStock{}, Cons: []string{}}}
 		o.Pre, o.RPanic = vendRead(m)
 		if o.RPanic != "" {
 			o.Post = o.Pre
